@@ -2,7 +2,7 @@
 # tools/confirm_seed.sh <Cxx> : independently confirm every candidate change under /tmp/seed/out/<Cxx>/m*/ in the
 # scratch worktree /tmp/seed/<Cxx>: demo passes on the clean tree, baseline suite passes with the change,
 # demo fails with the change. Writes confirm.json next to each candidate. Never touches /repo.
-PID="$1"; W=/tmp/seed/$PID; OUT=/tmp/seed/out/$PID
+PID="$1"; W=/tmp/seed/$PID; OUT=${SEED_OUT:-/tmp/seed/out}/$PID
 export CARGO_NET_OFFLINE=true
 cd "$W" || exit 2
 for d in "$OUT"/m*/; do
